@@ -409,7 +409,8 @@ def expand_regions(r, facts):
             if variant is not None:
                 lfields = next((v.get("fields") for v in lay.get("variants", []) if v["name"] == variant), None)
             zero = {lf["name"] for lf in (lfields or []) if lf.get("size") == 0}
-            return seq(*[ev(("N", x["ty"])) for x in vr["fields"][i:j + 1] if x["name"] not in zero])
+            conc = {lf["name"]: lf["ty"] for lf in (lfields or [])}   # concrete field types of a generic instantiation
+            return seq(*[ev(("N", conc.get(x["name"], x["ty"]))) for x in vr["fields"][i:j + 1] if x["name"] not in zero])
         return ev(sym)
     return rx.subst(r, f)
 
